@@ -376,6 +376,73 @@ func runC09(c *Ctx) {
 		c.verdict(okTrue, c.nm(fn)+" | an outpoint match returns true", c.at(cmp), "return true on equality", "an outpoint match no longer returns true")
 	})
 
+	c.rule("C09.G4", "a rewind walks the chain that was delivered: every step back in updateFilter announces the disconnect of the current block (its own hash and height) and then moves to that block's parent, fetched by the current header's PrevBlock hash (never by height: after a reorganisation the block at height-1 of the best chain is not the parent of a block the caller was told about); the new position's height and hash come from that same lookup", func() {
+		fn := c.fn("(*neutrino.rescanOptions).updateFilter")
+		getHdr := c.method("neutrino", "ChainSource", "GetBlockHeader")
+		byHeight := c.method("neutrino", "ChainSource", "GetBlockHeaderByHeight")
+		prevBlock := c.field(pWire, "BlockHeader", "PrevBlock")
+		curHeader, curStamp := fn.Params[4], fn.Params[3]
+		var bad []string
+		calls := find(fn, callTo(getHdr))
+		if len(calls) != 1 {
+			bad = append(bad, fmt.Sprintf("%d GetBlockHeader call(s) in the rewind loop, 1 tabled", len(calls)))
+		}
+		if n := len(find(fn, callTo(byHeight))); n > 0 {
+			bad = append(bad, "the rewind looks blocks up by height")
+		}
+		for _, x := range calls {
+			a := argsOf(x)[0]
+			fa, ok := a.(*ssa.FieldAddr)
+			if !ok || ir.FieldOfAddr(fa) != prevBlock || fa.X != ssa.Value(curHeader) {
+				bad = append(bad, "the parent is not looked up by &curHeader.PrevBlock at "+c.at(x))
+			}
+			// *curHeader = *header ; curStamp.Height = height ; curStamp.Hash = curHeader.BlockHash()
+			okHdr, okHeight, okHash := false, false, false
+			ir.Instrs(fn, func(in ssa.Instruction) {
+				st, ok := in.(*ssa.Store)
+				if !ok {
+					return
+				}
+				if st.Addr == ssa.Value(curHeader) {
+					okHdr = ir.DerivesFrom(st.Val, func(v ssa.Value) bool {
+						e, ok := v.(*ssa.Extract)
+						return ok && e.Index == 0 && e.Tuple == x.(ssa.Value)
+					})
+				}
+				if fa, ok := st.Addr.(*ssa.FieldAddr); ok && fa.X == ssa.Value(curStamp) {
+					switch ir.FieldOfAddr(fa).Name() {
+					case "Height":
+						okHeight = ir.DerivesFrom(st.Val, func(v ssa.Value) bool {
+							e, ok := v.(*ssa.Extract)
+							return ok && e.Index == 1 && e.Tuple == x.(ssa.Value)
+						})
+					case "Hash":
+						call, ok := st.Val.(*ssa.Call)
+						okHash = ok && callTo(c.method(pWire, "BlockHeader", "BlockHash"))(call) && call.Call.Args[0] == ssa.Value(curHeader)
+					}
+				}
+			})
+			if !okHdr || !okHeight || !okHash {
+				bad = append(bad, fmt.Sprintf("the new position is not taken from the parent lookup (header %v, height %v, hash %v)", okHdr, okHeight, okHash))
+			}
+		}
+		sort.Strings(bad)
+		c.verdict(len(bad) == 0, c.nm(fn)+" | each step back goes to the parent of the current header", c.P.Pos(fn.Pos()), "GetBlockHeader(&curHeader.PrevBlock) -> *curHeader, curStamp.Height, curStamp.Hash", join(bad), c.ats(calls)...)
+		// the disconnect callbacks run before the step, with the current block
+		if len(calls) == 1 {
+			disc := callVia(c.field("github.com/btcsuite/btcd/rpcclient", "NotificationHandlers", "OnFilteredBlockDisconnected"), c.field("github.com/btcsuite/btcd/rpcclient", "NotificationHandlers", "OnBlockDisconnected"))
+			h := ir.LoopHeaderOf(calls[0].Block())
+			okLoop := h != nil
+			for _, d := range find(fn, disc) {
+				if ir.LoopHeaderOf(d.Block()) != h {
+					okLoop = false
+				}
+			}
+			c.verdict(okLoop && len(find(fn, disc)) == 2, c.nm(fn)+" | disconnect callbacks are part of each step", c.P.Pos(fn.Pos()), "both callbacks inside the rewind loop", "the disconnect callbacks are not issued once per step of the rewind")
+			c.neverAfter(fn, func(in ssa.Instruction) bool { return in == calls[0] }, "the parent lookup", disc, "a disconnect callback", 1, ir.BackEdgesTo(h))
+		}
+	})
+
 	c.rule("C09.V1", "paysWatchedAddr: an output paying a watched address makes the created outpoint watched from then on (appended to both watchInputs and watchList)", func() {
 		fn := c.fn("(*neutrino.rescanOptions).paysWatchedAddr")
 		wi := c.field("neutrino", "rescanOptions", "watchInputs")
